@@ -90,31 +90,63 @@ def run_all(tier, seed):
         return r, cdir
     os.makedirs(cdir, exist_ok=True)
     t0 = time.time()
-    path, xlog, err = D.gen(cdir)
-    res = {'key': key, 'tier': tier, 'seed': seed, 'extract_log': xlog, 'runs': [], 'cached': False}
-    if err:
-        res['status'] = 'undecided'
-        res['reason'] = 'extraction: ' + str(err[2])[:2000]
-        json.dump(res, open(rfile, 'w'))
-        return res, cdir
-    # vacuity probe appended to the crate-root module (all trusted axioms in scope)
-    txt = open(path).read()
-    marker = '\n} // mod code\n'
-    i = txt.rindex(marker)
-    # insert before the first child module of `code`: simplest is right before the literal constants block
-    lit = '// ---- generated literal constants (N4)'
-    j = txt.index(lit)
-    txt = txt[:j] + MUST_FAIL + txt[j:]
-    open(path, 'w').write(txt)
+    res = {'key': key, 'tier': tier, 'seed': seed, 'runs': [], 'cached': False, 'degraded': {}}
+    base_cfg = json.load(open(os.path.join(D.VERIF, 'contracts', 'extract.json')))
+    nohint, dropped = [], []
 
-    def one(extra, name):
+    def one(path, extra, name):
         r = D.run_verus(path, ['--time-expanded'] + extra, timeout=3000)
         r['name'] = name
         return r
-    runs = [one([], 'z3 default')]
+
+    # Fallback ladder (never turns a tool limit into an alarm): a function whose injected hints or whose new source text
+    # the tools reject is retried without hints, then with its body dropped (its contract is then unverified -> UNDECIDED
+    # for the properties that depend on it); all other functions are still decided.
+    for attempt in range(4):
+        cfg = dict(base_cfg)
+        cfg['nohint_fns'] = nohint
+        cfg['drop_bodies'] = list(base_cfg['drop_bodies']) + dropped
+        cfgp = os.path.join(cdir, 'extract_attempt%d.json' % attempt)
+        json.dump(cfg, open(cfgp, 'w'))
+        path, xlog, err = D.gen(cdir, extract_cfg=cfgp)
+        res['extract_log'] = xlog
+        if err:
+            res['status'] = 'undecided'
+            res['reason'] = 'extraction: ' + str(err[2])[:2000]
+            json.dump(res, open(rfile, 'w'))
+            return res, cdir
+        # vacuity probe appended to the crate-root module (all trusted axioms in scope)
+        txt = open(path).read()
+        lit = '// ---- generated literal constants (N4)'
+        j = txt.index(lit)
+        txt = txt[:j] + MUST_FAIL + txt[j:]
+        open(path, 'w').write(txt)
+        r0 = one(path, [], 'z3 default')
+        gi = GenIndex(path)
+        tool = [f for f in failures(gi, r0['diags']) if f['kind'] == 'tool']
+        js0 = r0.get('json') or {}
+        if not tool:
+            break
+        fns = sorted(set(f['fn'] for f in tool if f['fn'] and f['module'].startswith('code') and f['src']))
+        if not fns or attempt == 3:
+            break
+        progressed = False
+        for fn in fns:
+            k = re.sub(r'\s+', '', fn)
+            if k not in nohint and k not in dropped:
+                nohint.append(k)
+                res['degraded'][fn] = 'hints not injected (tool error: %s)' % next(f['message'][:100] for f in tool if f['fn'] == fn)
+                progressed = True
+            elif k in nohint and k not in dropped:
+                dropped.append(k)
+                res['degraded'][fn] = 'BODY NOT VERIFIED (tool error: %s)' % next(f['message'][:100] for f in tool if f['fn'] == fn)
+                progressed = True
+        if not progressed:
+            break
+    runs = [r0]
     if tier == 'thorough':
-        runs.append(one(['--rlimit', '40', '--smt-option', 'smt.random_seed=%d' % (int(seed) % 1000 + 1)], 'z3 rlimit x4, random_seed'))
-        runs.append(one(['--rlimit', '40', '--smt-option', 'smt.random_seed=%d' % (int(seed) % 1000 + 77)], 'z3 rlimit x4, second random_seed'))
+        runs.append(one(path, ['--rlimit', '40', '--smt-option', 'smt.random_seed=%d' % (int(seed) % 1000 + 1)], 'z3 rlimit x4, random_seed'))
+        runs.append(one(path, ['--rlimit', '40', '--smt-option', 'smt.random_seed=%d' % (int(seed) % 1000 + 77)], 'z3 rlimit x4, second random_seed'))
     for r in runs:
         r.pop('stdout_tail', None)
     res['runs'] = runs
@@ -193,6 +225,13 @@ def check(prop, tier, seed):
     if not probe:
         undecided('vacuity probe vp_must_fail did not fail: trusted base may be inconsistent')
 
+    # functions whose proof hints could not be placed (source restructured): failures inside them are UNDECIDED, never alarms
+    lost_fns = set(re.sub(r'\s+', '', k) for k in res.get('degraded', {}))
+    dropped_fns = set(re.sub(r'\s+', '', k) for k, v in res.get('degraded', {}).items() if v.startswith('BODY NOT VERIFIED'))
+    for l in res.get('extract_log', {}).get('lost', []):
+        m = re.match(r'LOST-\w+ (\S+)', l)
+        if m:
+            lost_fns.add(m.group(1))
     bd = fn_breakdown(js)
     fn_labels = gi.fn_labels()
     # labelled obligations of this property: (function key, label)
@@ -235,10 +274,17 @@ def check(prop, tier, seed):
         concerns = prop in props or (not props and fkey in prop_fns)
         if not concerns:
             continue
-        if f['kind'] == 'rlimit':
+        if f['kind'] == 'rlimit' or re.sub(r'\s+', '', str(fkey)) in lost_fns:
+            if re.sub(r'\s+', '', str(fkey)) in lost_fns:
+                f = dict(f)
+                f['message'] = 'proof hint anchor lost in %s (source restructured); ' % fkey + f['message']
             undecided_fns.append(f)
         else:
             violations.append(f)
+    # functions whose body had to be dropped: their obligations are not decided
+    for (fk, lab) in obligations:
+        if re.sub(r'\s+', '', fk) in dropped_fns:
+            undecided_fns.append({'fn': fk, 'message': res['degraded'].get(fk, 'body not verified'), 'kind': 'tool'})
     if support_failed:
         undecided('a lemma/spec of the shared library failed: ' + '; '.join('%s: %s' % (f['fn'], f['message'][:80]) for f in support_failed[:4]))
 
@@ -332,7 +378,7 @@ def check(prop, tier, seed):
     if undecided_fns and not new_violations:
         ev['coverage']['explanation'] += ' UNDECIDED: resource limit on ' + ', '.join(sorted(set(f['fn'] for f in undecided_fns)))
         write_ev(ev)
-        print('UNDECIDED property=%s rlimit exceeded in %s' % (prop, ', '.join(sorted(set(f['fn'] for f in undecided_fns)))))
+        print('UNDECIDED property=%s %s' % (prop, '; '.join(sorted(set('%s: %s' % (f['fn'], f['message'][:70]) for f in undecided_fns)))))
         sys.exit(2)
 
     for (v, mine) in known_hit:
